@@ -8,6 +8,9 @@ import PasskeyVerif.Model.AuthDataCbor
 namespace PasskeyVerif.AuthData
 open PasskeyVerif.Cbor
 
+theorem or_right_comm8 (a b c : UInt8) : a ||| b ||| c = a ||| c ||| b := by
+  rw [UInt8.or_assoc, UInt8.or_comm b c, ← UInt8.or_assoc]
+
 /-- encodings of well-formed items that ciborium's recursion limit lets through -/
 def IsCborItem (bs : Bytes) : Prop := ∃ x : Item, x.WF = true ∧ x.depth ≤ 256 ∧ bs = encode x
 
